@@ -20,7 +20,10 @@ ParseVectors ==
   \cup { Parse(t, "junk", 0) : t \in {"", "Canceled", "CANCELED", "CODE_5", "code_", "code_x", "code_+ 5", "not a code",
                                         "code_1.5", "canceled ", " canceled", "code", "code_0x11", "ok", "OK", "code_1e3",
                                         \* bare numbers are not the code_<number> form either
-                                        "0", "1", "5", "16", "17", "429", "-1", "4294967295", "4294967296", "_5", "code5"} }
+                                        "0", "1", "5", "16", "17", "429", "-1", "4294967295", "4294967296", "_5", "code5",
+                                        \* something between the prefix and the digits
+                                        "code__17", "code_code_17", "code_c17", "code_deco_17", "code_ode_20", "code_ 17",
+                                        "code_17 ", "code_17x", "xcode_17", "code_code_"} }
 \* valid UTF-8 only: the message travels in a protobuf string as well
 Utf8Msgs == { <<>>, <<65>>, <<37>>, <<0>>, <<31, 32, 126, 127>>, <<195, 169>>, <<37, 52, 49>>, <<10, 13>>, <<226, 130, 172, 37, 37>>,
               <<32, 65, 32>>, <<240, 159, 152, 128>> }
